@@ -23,6 +23,7 @@ import random
 
 HELPERS = r'''record R { x : int; }
 extern "libnosuch_c03.so" func nosuch(a : int) -> int
+extern "libnosuch_c03.so" func nosuch0() -> int
 func pm(v : int) -> int { print(v); v }
 func id3(x : int, y : int, z : int) -> int { x + y + z }
 func nilr() -> R { nil }
@@ -37,6 +38,7 @@ func pfun(t : int) -> (int) -> int { var a = {[ 2 ]} : (int) -> int; a[1] = inc1
 func mk(t : int) -> [_] : int { {[ t == 0 ? 3 : 2 ]} : int }
 func first(a[D] : int) -> int { a[0] + 4 }
 func pffi(t : int) -> int { t == 0 ? nosuch(t) : 6 }
+func pffi0(t : int) -> int { t == 0 ? nosuch0() : 6 }
 '''
 
 # kind -> (exception name, source template over the trigger text, value for trigger T in 1..3)
@@ -53,6 +55,7 @@ KINDS = {
     "arrsize":  ("wrong_array_size",    lambda t: "first(mk(%s) + gy2())" % t,           lambda T: 5),
     "invalid":  ("invalid_domain",      lambda t: "(sqrt((%s) - 0.5) > 0.0 ? 9 : 8)" % t, lambda T: 9),
     "ffi":      ("ffi_fail",            lambda t: "pffi(%s)" % t,                        lambda T: 6),
+    "ffi0":     ("ffi_fail",            lambda t: "pffi0(%s)" % t,                       lambda T: 6),
 }
 EXC_NAMES = ["division_by_zero", "wrong_array_size", "index_out_of_bounds", "invalid_domain",
              "nil_pointer", "ffi_fail"]
@@ -445,12 +448,16 @@ def family(seed, tier):
     # 3. controls: the trigger is not zero, nothing faults
     for kind in kinds:
         progs.append(g.chain(kind, rng.randint(0, 2), rng.randint(1, 3), rng.randint(0, 3), "first", trig=rng.randint(1, 3)))
-    # 4. clauses that fault themselves
+    # 4. clauses that fault themselves: with another exception, and with the SAME exception (which must
+    #    not come back to the clause that raised it, nor to an earlier one)
     for kind in kinds:
         for where in ("later", "caller", "none"):
             k2 = rng.choice([x for x in kinds if KINDS[x][0] != KINDS[kind][0]])
             progs.append(g.chain(kind, rng.randint(0, 2), rng.randint(0, 3), rng.randint(0, 2), rng.choice(["first", "last", "only"]),
                                  hf=(k2, where)))
+            k3 = rng.choice([x for x in kinds if KINDS[x][0] == KINDS[kind][0]])
+            progs.append(g.chain(kind, rng.randint(0, 2), rng.randint(0, 3), rng.randint(0, 2), rng.choice(["first", "last", "only", "dup"]),
+                                 hf=(k3, where)))
     # 5. loops, closures, recursion
     for kind in kinds:
         n = 4
